@@ -69,6 +69,31 @@ def _residual_conversion(e):
     return False
 
 
+def _has_subterm(e, sub):
+    if e == sub:
+        return True
+    return isinstance(e, tuple) and any(_has_subterm(x, sub) for x in e if isinstance(x, tuple))
+
+
+def _replace_subterm(e, old, new):
+    if e == old:
+        return new
+    if not isinstance(e, tuple):
+        return e
+    return tuple(_replace_subterm(x, old, new) if isinstance(x, tuple) else x for x in e)
+
+
+def _subst_targs(e, tmap):
+    """type arguments inside an inlined generic helper, named by the helper's own parameters, become
+    the caller's type arguments"""
+    if not tmap or not isinstance(e, tuple) or not e:
+        return e
+    if e[0] in ("call", "fnptr") and len(e) > 2 and isinstance(e[-1], tuple) and all(isinstance(x, str) for x in e[-1]):
+        new = tuple(_re.sub(r"\b(%s)\b" % "|".join(map(_re.escape, tmap)), lambda m: tmap[m.group(1)], x) for x in e[-1])
+        e = e[:-1] + (new,)
+    return tuple(_subst_targs(x, tmap) if isinstance(x, tuple) and not (i == len(e) - 1 and e[0] in ("call", "fnptr") and all(isinstance(y, str) for y in x)) else x for i, x in enumerate(e))
+
+
 class Algebra:
     def __init__(self, crate, depth=0):
         self.crate = crate
@@ -231,7 +256,7 @@ class Algebra:
                         if _is_agg(v, ERR):
                             out.append((at, ("agg", ERR, (("call", "From::from", (v[2][0],), ()),)) if conv else v))
                     return out
-            inl = self.inline_private(c, a)
+            inl = self.inline_private(c, a, e[3] if len(e) > 3 else ())
             if inl is not None:
                 return inl
         if e[0] == "agg" and self.body is not None and self.depth < 6:
@@ -248,7 +273,7 @@ class Algebra:
                         return out
         return [((), self.rewrite(e))]
 
-    def inline_private(self, name, args):
+    def inline_private(self, name, args, targs=()):
         """A call to a private, loop-free helper of the same crate reads as the helper's own case
         table over the arguments (extracting a function does not change what a caller returns)."""
         if self.depth >= 3:
@@ -272,9 +297,11 @@ class Algebra:
         try:
             inner = Algebra(self.crate, self.depth + 1)
             out = []
+            gen = raw.get("generics") or []
+            tmap = dict(zip(gen, list(targs)[-len(gen):])) if gen and len(targs) >= len(gen) else {}
             for conds, v in inner.body_cases(cb):
-                at = tuple((S.subst_params(e, args), val) for e, val in conds)
-                out.append((at, S.subst_params(v, args)))
+                at = tuple((_subst_targs(S.subst_params(e, args), tmap), val) for e, val in conds)
+                out.append((at, _subst_targs(S.subst_params(v, args), tmap)))
             return out or None
         except RuntimeError:
             return None
@@ -352,36 +379,63 @@ class Algebra:
                             nxt.append(base | cs)
                     bases = nxt
                 v_in = v
-                for cs in bases:
+                for cs0 in bases:
                     # the value of a local assigned on the branch taken (`let parsed = match ..;` and
-                    # a later `match parsed`): substituted into the returned value
-                    env = {e2[1]: x for (e2, x) in cs if e2[0] == "phi"}
-                    cs = frozenset(at for at in cs if at[0][0] != "phi")
-                    v = S.subst_locals(v_in, env) if env and S._mentions_local(v_in, set(env)) else v_in
-                    if v is not v_in:
-                        # the substituted value may itself be expandable (Ok(x) / Err(y) now visible)
-                        v = self.rewrite(self._fold_payloads(v))
-                    cur = set(cs)
-                    bad = False
-                    for (ee, val) in extra:
-                        if env and S._mentions_local(ee, set(env)):
-                            ee = self._fold_payloads(S.subst_locals(ee, env))
-                        if ee[0] == "effect":
-                            cur.add((self.rewrite(ee), val))
-                            continue
-                        a = S.normalise_atom(self.rewrite(ee), val)
-                        f = S.fold_atom(a[0], a[1])
-                        if f is False:
-                            bad = True
-                            break
-                        if f is True:
-                            continue
-                        if any(e2 == a[0] and S._contradict(v2, a[1]) for (e2, v2) in cur):
-                            bad = True
-                            break
-                        cur.add(a)
-                    if not bad:
-                        out.append((frozenset(cur), v))
+                    # a later `match parsed`) is substituted into the returned value and the atoms;
+                    # if that value is itself a combinator chain it is expanded into its own cases
+                    env0 = {e2[1]: x for (e2, x) in cs0 if e2[0] == "phi"}
+                    cs_real = frozenset(at for at in cs0 if at[0][0] != "phi")
+                    used = [l for l in env0 if S._mentions_local(v_in, {l}) or any(S._mentions_local(ee, {l}) for ee, _ in extra)
+                            or any(_has_subterm(at[0], env0[l]) for at in cs_real)]
+                    combos = [({}, ())]
+                    for l in used[:2]:
+                        alts = [(at, val) for at, val in self.expand(env0[l])]
+                        nxt = []
+                        for envc, atc in combos:
+                            for at, val in alts[:8]:
+                                e3 = dict(envc)
+                                e3[l] = val
+                                nxt.append((e3, atc + tuple(x for x in at if x[0][0] != "pc-of")))
+                        combos = nxt
+                    for env, more in combos:
+                        full_env = dict(env0)
+                        full_env.update(env)
+                        v = v_in
+                        if full_env and S._mentions_local(v_in, set(full_env)):
+                            v = self.rewrite(self._fold_payloads(S.subst_locals(v_in, full_env)))
+                        cur = set()
+                        bad = False
+                        atoms = []
+                        for (e2, v2) in cs_real:
+                            e3 = e2
+                            for l in env:
+                                if env0[l] != env[l] and _has_subterm(e3, env0[l]):
+                                    e3 = _replace_subterm(e3, env0[l], env[l])
+                            if e3 is not e2:
+                                atoms.append((self._fold_payloads(e3), v2, True))
+                            else:
+                                cur.add((e2, v2))
+                        for (ee, val) in tuple(extra) + tuple(more):
+                            if full_env and S._mentions_local(ee, set(full_env)):
+                                ee = self._fold_payloads(S.subst_locals(ee, full_env))
+                            atoms.append((ee, val, False))
+                        for (ee, val, _) in atoms:
+                            if ee[0] == "effect":
+                                cur.add((self.rewrite(ee), val))
+                                continue
+                            a = S.normalise_atom(self.rewrite(ee), val) if isinstance(val, bool) or ee[0] in ("call", "not", "bin", "discr") else (self.rewrite(ee), val)
+                            f = S.fold_atom(a[0], a[1])
+                            if f is False:
+                                bad = True
+                                break
+                            if f is True:
+                                continue
+                            if any(e2 == a[0] and S._contradict(v2, a[1]) for (e2, v2) in cur):
+                                bad = True
+                                break
+                            cur.add(a)
+                        if not bad:
+                            out.append((frozenset(cur), v))
         return out
 
 
@@ -430,6 +484,25 @@ def _atom(e, val, s):
     if e[0] == "effect":
         return "did:%s(%s)" % (e[1], ", ".join(S.show(S.strip_transparent(x), s) for x in e[2]))
     return S.atom_str(e, val, s)
+
+
+def raw_cases(ctx, body):
+    """case table with expressions as tuples (for rules that need type arguments of calls)"""
+    return Algebra(body.crate).body_cases(body)
+
+
+def find_call(e, name):
+    """first call node of `name` inside expression e"""
+    if not isinstance(e, tuple) or not e:
+        return None
+    if e[0] == "call" and e[1] == name:
+        return e
+    for x in e:
+        if isinstance(x, tuple):
+            r = find_call(x, name)
+            if r is not None:
+                return r
+    return None
 
 
 def cases(ctx, body):
